@@ -464,6 +464,10 @@ func run(seed int64, n int, out string, args []string) {
 		ws := genOpxWords(g)
 		plan = append(plan, job{vets: []vetItem{{"SELECT " + strings.Join(ws, " "), false, false}}, run: func() { opxCase(o, ws) }})
 	}
+	for i := 0; i < n/6; i++ {
+		text := genSelText(g)
+		plan = append(plan, job{vets: []vetItem{{text, false, false}}, run: func() { selCase(o, text, "generated") }})
+	}
 	plan = append(plan, ps.plan(n-nEsc-nScan-nUnary)...)
 
 	v := newVetter(o, out)
